@@ -33,6 +33,82 @@ static uint32_t ref_crc(const uint8_t *b, size_t n) {
 	}
 	return ~c;
 }
+/* ---- buffers of 4 GiB and more: sparse anonymous memory, a few islands of non-zero bytes; the reference walks the islands
+ * bit by bit and crosses each run of zero bytes with the n-th power of the "one zero byte" operator (the register update is
+ * linear over GF(2)), cross-checked against the plain bitwise loop on a 3 MiB buffer before it is trusted */
+#include <sys/mman.h>
+static uint32_t ref_step_state(uint32_t c, const uint8_t *b, size_t n) {
+	for (size_t i = 0; i < n; i++) {
+		c ^= b[i];
+		for (int k = 0; k < 8; k++) c = (c >> 1) ^ (0x82F63B78u & -(c & 1));
+	}
+	return c;
+}
+static uint32_t gf2_apply(const uint32_t *m, uint32_t v) { uint32_t r = 0; for (int i = 0; v; i++, v >>= 1) if (v & 1) r ^= m[i]; return r; }
+static uint32_t ref_zero_run(uint32_t c, uint64_t n) {
+	uint32_t m[32], t[32];
+	static const uint8_t z = 0;
+	for (int i = 0; i < 32; i++) m[i] = ref_step_state(1u << i, &z, 1);
+	while (n) {
+		if (n & 1) c = gf2_apply(m, c);
+		for (int i = 0; i < 32; i++) t[i] = gf2_apply(m, m[i]);
+		memcpy(m, t, sizeof m);
+		n >>= 1;
+	}
+	return c;
+}
+struct island { uint64_t off; uint32_t len; };
+static uint32_t ref_crc_sparse(const uint8_t *b, uint64_t n, const struct island *is, int nis) {
+	uint32_t c = ~0u;
+	uint64_t pos = 0;
+	for (int i = 0; i < nis && is[i].off < n; i++) {
+		uint64_t end = is[i].off + is[i].len > n ? n : is[i].off + is[i].len;
+		c = ref_zero_run(c, is[i].off - pos);
+		c = ref_step_state(c, b + is[i].off, (size_t)(end - is[i].off));
+		pos = end;
+	}
+	c = ref_zero_run(c, n - pos);
+	return ~c;
+}
+static int do_crcbig(int tier) {
+	int sse = my_crc32c_sse42_supported();
+	long bad = 0, checks = 0;
+	/* the sparse reference against the plain loop */
+	{
+		size_t n = 3u << 20;
+		uint8_t *b = calloc(1, n);
+		struct island is[3] = { { 5, 40 }, { 1u << 20, 100 }, { n - 33, 33 } };
+		for (int i = 0; i < 3; i++) for (uint32_t j = 0; j < is[i].len; j++) b[is[i].off + j] = (uint8_t)(j * 37 + i + 1);
+		if (ref_crc_sparse(b, n, is, 3) != ref_crc(b, n)) { printf("MISMATCH the sparse reference disagrees with the bitwise loop\n"); return 2; }
+		free(b);
+	}
+	uint64_t total = (tier ? (1ull << 33) : (1ull << 32)) + (1u << 16);
+	uint8_t *b = mmap(NULL, total, PROT_READ | PROT_WRITE, MAP_PRIVATE | MAP_ANONYMOUS | MAP_NORESERVE, -1, 0);
+	if (b == MAP_FAILED) { printf("crcbig: cannot map %llu bytes\n", (unsigned long long)total); return 2; }
+	struct island is[5] = { { 3, 61 }, { (1ull << 31) - 7, 19 }, { (1ull << 32) - 9, 70 }, { (1ull << 33) - 5, 44 }, { total - 100, 100 } };
+	int nis = 5;
+	for (int i = 0; i < nis; i++) if (is[i].off + is[i].len <= total) for (uint32_t j = 0; j < is[i].len; j++) b[is[i].off + j] = (uint8_t)(j * 91 + 7 * i + 1);
+	uint64_t lens[8] = { (1ull << 32) - 1, 1ull << 32, (1ull << 32) + 43, (1ull << 32) + 4099, (1ull << 33) + 21, 0, 0, 0 };
+	int nl = tier ? 5 : 3;
+	for (int li = 0; li < nl; li++) {
+		for (int al = 0; al < 2; al++) {
+			uint64_t n = lens[li] - (uint64_t)al;
+			struct island js[5];
+			int nj = 0;
+			for (int i = 0; i < nis; i++) if (is[i].off + is[i].len > (uint64_t)al) { js[nj] = is[i]; if (js[nj].off < (uint64_t)al) { js[nj].len -= (uint32_t)((uint64_t)al - js[nj].off); js[nj].off = 0; } else js[nj].off -= (uint64_t)al; nj++; }
+			uint32_t r = ref_crc_sparse(b + al, n, js, nj);
+			uint32_t d = mtbl_crc32c(b + al, n);
+			if (d != r) { bad++; printf("MISMATCH dispatch len=%llu align=%d got %08x want %08x\n", (unsigned long long)n, al, d, r); }
+			if (sse) { uint32_t h = my_crc32c_sse42(b + al, n); if (h != r) { bad++; printf("MISMATCH sse42 len=%llu align=%d got %08x want %08x\n", (unsigned long long)n, al, h, r); } }
+			checks += 1 + sse;
+			if (al == 0 || tier) { uint32_t t = my_crc32c_slicing(b + al, n); if (t != r) { bad++; printf("MISMATCH slicing len=%llu align=%d got %08x want %08x\n", (unsigned long long)n, al, t, r); } checks++; }
+		}
+	}
+	munmap(b, total);
+	printf("crcbig checks=%ld bad=%ld\n", checks, bad);
+	return bad != 0;
+}
+
 /* reference LEB128 (transliteration of Varint.tla: digits base 128, least significant first, high bit = continuation) */
 static size_t ref_enc(uint8_t *p, uint64_t v) {
 	size_t n = 0;
@@ -323,6 +399,7 @@ static int do_comp(const char *out, const char *tier) {
 int main(int argc, char **argv) {
 	if (argc >= 3 && !strcmp(argv[1], "crc")) return do_crc(argv[2]);
 	if (argc >= 4 && !strcmp(argv[1], "crcrand")) return do_crcrand(strtoull(argv[2], NULL, 10), atoi(argv[3]));
+	if (argc >= 3 && !strcmp(argv[1], "crcbig")) return do_crcbig(atoi(argv[2]));
 	if (argc >= 3 && !strcmp(argv[1], "varint")) return do_varint(argv[2]);
 	if (argc >= 3 && !strcmp(argv[1], "sweep")) return do_sweep(strtoull(argv[2], NULL, 10));
 	if (argc >= 4 && !strcmp(argv[1], "comp")) return do_comp(argv[2], argv[3]);
